@@ -23,6 +23,11 @@ package mem
 // inflight(q, e): e lies before the read cursor (handed out, not yet acknowledged).
 //@ spec func inflight(q *Queue, e *list.Element) bool = inList(q.l, e) && (q.current == nil || e.$pos < q.current.$pos)
 
+// headIds(q): every entry before the read cursor (handed out, awaiting acknowledgement) carries a packet identifier;
+// together with tailFresh this is "in flight by content = in flight by cursor": nothing that was never handed out
+// lies before the cursor, so no queued message can be stranded out of Read's reach.
+//@ spec func headIds(q *Queue) bool = forall e *list.Element :: inflight(q, e) ==> idOf(e) != 0
+
 // Remove(pid): removes the first in-flight element with that identifier (if any), nothing else; the queue and
 // in-flight gauges are told exactly what happened.
 //@ func (*Queue).Remove
@@ -36,6 +41,7 @@ package mem
 //@ ensures [C10] forall e *list.Element :: old(inList(q.l, e)) && !inList(q.l, e) ==> old(inflight(q, e)) && old(idOf(e)) == pid
 //@ ensures [C10] forall e *list.Element :: inList(q.l, e) ==> old(inList(q.l, e))
 //@ ensures [C10] (exists e *list.Element :: old(inflight(q, e)) && old(idOf(e)) == pid) ==> q.l.$len == old(q.l.$len) - 1
+//@ ensures [C10] old(headIds(q)) ==> headIds(q)
 //@ loop 1 invariant qOK(q) && unread == q.current && (e == nil || inList(q.l, e)) && q.l.$len == old(q.l.$len) && N.$queued == old(N.$queued) && N.$inflight == old(N.$inflight)
 //@ loop 1 invariant forall f *list.Element :: inList(q.l, f) == old(inList(q.l, f))
 //@ loop 1 invariant e != nil && unread != nil ==> e.$pos <= unread.$pos
@@ -63,6 +69,7 @@ package mem
 //@ ensures [C10] opts.CleanStart ==> isfresh(q.l) && q.l.$len == 0 && q.current == nil
 //@ ensures [C10] !opts.CleanStart ==> q.l == old(q.l) && q.l.$len == old(q.l.$len) && (forall e *list.Element :: inList(q.l, e) == old(inList(q.l, e)))
 //@ ensures [C10] !opts.CleanStart ==> (q.current == nil) == (q.l.$len == 0) && (q.current != nil ==> isFront(q.l, q.current))
+//@ ensures [C10] headIds(q)
 
 // Replace: swaps the content of the first in-flight element that carries the same packet identifier
 // (PUBLISH -> PUBREL after PUBREC); queued elements and the list structure are untouched.
@@ -73,6 +80,7 @@ package mem
 //@ ensures [C10] err == nil && qOK(q) && q.l.$len == old(q.l.$len) && q.current == old(q.current)
 //@ ensures [C10] forall e *list.Element :: e.Value != old(e.Value) ==> replaced && old(inflight(q, e)) && e.Value.(type *queue.Elem) && elemOf(e) == elem && old(idOf(e)) == old(idOfElem(elem))
 //@ ensures [C10] !replaced ==> (forall e *list.Element :: e.Value == old(e.Value))
+//@ ensures [C10] old(headIds(q)) && idOfElem(elem) != 0 ==> headIds(q)
 //@ spec func idOfElem(x *queue.Elem) uint16 = x.MessageWithID.(type *queue.Publish) ? x.MessageWithID.(*queue.Publish).Message.PacketID : x.MessageWithID.(*queue.Pubrel).PacketID
 //@ loop 1 invariant qOK(q) && unread == q.current && (e == nil || inList(q.l, e)) && (e != nil && unread != nil ==> e.$pos <= unread.$pos)
 //@ loop 1 invariant forall f *list.Element :: f.Value == old(f.Value)
@@ -93,6 +101,7 @@ package mem
 //@ ensures [C10] forall e *list.Element :: inList(q.l, e) && old(q.current) != nil && e.$pos >= old(q.current.$pos) && (q.current == nil || e.$pos < q.current.$pos) ==> idOf(e) != 0
 //@ ensures [C10] q.inflightDrained && !old(q.inflightDrained) && q.current != nil ==> idOf(q.current) == 0
 //@ ensures [C10] forall e *list.Element :: inList(q.l, e) ==> idOf(e) == old(idOf(e))
+//@ ensures [C10] old(headIds(q)) ==> headIds(q)
 //@ loop 1 invariant qOK(q) && q.l.$len == old(q.l.$len) && (forall e *list.Element :: inList(q.l, e) == old(inList(q.l, e))) && 0 <= i && len(rs) == i && (i == 0 || i <= length) && length <= int(maxSize) && q.inflightDrained == old(q.inflightDrained)
 //@ loop 1 invariant forall k int :: 0 <= k && k < len(rs) ==> rs[k] != nil && idOfElem(rs[k]) != 0
 //@ loop 1 invariant rs == nil || isfresh(rs)
@@ -117,17 +126,19 @@ package mem
 //@ func (*Queue).Read
 //@ props C10 C12 C03 C13
 //@ let N = q.notifier
-//@ requires [C10] qOK(q) && q.inflightDrained && tailFresh(q) && qDistinct(q)
+//@ requires [C10] qOK(q) && q.inflightDrained && tailFresh(q) && qDistinct(q) && headIds(q)
+//@ requires [C10 C03] forall i int :: 0 <= i && i < len(pids) ==> pids[i] != 0
 //@ modifies q.current, ghost(q.l.$len), ghostall(list.Element.$owner), all(queue.Elem.Expiry), all(gmqtt.Message.PacketID), all(queue.Pubrel.PacketID), allelems(*queue.Elem), ghost(N.$queued), ghost(N.$inflight), ghost(N.$drops), ghost(N.$lastDrop), ghost(N.$lastErr)
 //@ ensures [C10] err == nil ==> qOK(q) && tailFresh(q) && qDistinct(q) && len(rs) <= len(pids)
+//@ ensures [C10] err == nil ==> headIds(q)
 //@ ensures [C10] err == nil ==> N.$queued - old(N.$queued) == q.l.$len - old(q.l.$len) && q.l.$len <= old(q.l.$len)
 //@ ensures [C10 C12 C13] err == nil ==> (forall k int :: 0 <= k && k < len(rs) ==> handedOK(q, rs[k], now()))
 //@ ensures [C10] err == nil ==> N.$inflight >= old(N.$inflight) && N.$inflight - old(N.$inflight) <= len(rs)
 //@ ensures [C10] forall e *list.Element :: inList(q.l, e) ==> old(inList(q.l, e))
 //@ ensures [C10] err != nil ==> rs == nil && q.l.$len == old(q.l.$len)
 //@ call Publish.SetID#1 assert [C10 C03] 0 <= pflag && pflag < len(pids) && id == pids[pflag] && p == pub
-//@ loop 1 invariant qOK(q) && tailFresh(q) && qDistinct(q) && q.l.$len == old(q.l.$len) && (forall e *list.Element :: inList(q.l, e) == old(inList(q.l, e))) && N.$queued == old(N.$queued) && N.$inflight == old(N.$inflight)
-//@ loop 2 invariant qOK(q) && tailFresh(q) && qDistinct(q) && now == now() && N.$queued == old(N.$queued) && N.$inflight == old(N.$inflight)
+//@ loop 1 invariant qOK(q) && tailFresh(q) && qDistinct(q) && headIds(q) && q.l.$len == old(q.l.$len) && (forall e *list.Element :: inList(q.l, e) == old(inList(q.l, e))) && N.$queued == old(N.$queued) && N.$inflight == old(N.$inflight)
+//@ loop 2 invariant qOK(q) && tailFresh(q) && qDistinct(q) && headIds(q) && now == now() && N.$queued == old(N.$queued) && N.$inflight == old(N.$inflight)
 //@ loop 2 invariant 0 <= i && 0 <= pflag && pflag <= i && len(rs) <= i && pflag <= len(rs) && length <= len(pids) && (i == 0 || i <= length) && inflightDelta == pflag
 //@ loop 2 invariant msgQueueDelta == q.l.$len - old(q.l.$len) && msgQueueDelta <= 0
 //@ loop 2 invariant forall e *list.Element :: inList(q.l, e) ==> old(inList(q.l, e))
@@ -159,6 +170,7 @@ package mem
 //@ modifies q.current, ghost(q.l.$len), ghost(q.l.$next), ghostall(list.Element.$owner), ghostall(list.Element.$pos), all(list.Element.Value), ghost(N.$queued), ghost(N.$inflight), ghost(N.$drops), ghost(N.$lastDrop), ghost(N.$lastErr)
 //@ ensures [C10] err == nil && qOK(q)
 //@ ensures [C10] old(qDistinct(q)) ==> qDistinct(q)
+//@ ensures [C10] old(headIds(q)) ==> headIds(q)
 //@ ensures [C10] old(tailFresh(q)) && pubMsg(elem).PacketID == 0 ==> tailFresh(q)
 //@ ensures [C10] forall e *list.Element :: e.Value != old(e.Value) ==> !old(inList(q.l, e)) && inList(q.l, e) && e.Value.(type *queue.Elem) && elemOf(e) == elem && e.$pos == old(q.l.$next)
 //@ ensures [C10] forall e *list.Element :: inList(q.l, e) && !old(inList(q.l, e)) ==> e.Value.(type *queue.Elem) && elemOf(e) == elem && e.$pos == old(q.l.$next)
